@@ -475,6 +475,10 @@ sstat MainSolver::solve_(vec<FrameId> const & enabledFrames) {
         assumps[i - 1] = assumps[i];
     }
     assumps.pop();
+#ifdef OPENSMT_VERIF
+    // "(a <handler> (<assumption literals>))": the frame-activation assumptions of this solve call
+    veriftrace::clause("a", static_cast<void const *>(thandler.get()), assumps);
+#endif
     return smt_solver->solve(assumps, !config.isIncremental(), config.isIncremental());
 }
 
